@@ -110,6 +110,7 @@ def model (arg : String) : String :=
     | .error (.writer e) => werrMsg e
     | .error (.codec .atEmpty) => "exc:out_of_range"
     | .error (.codec .stackEmpty) => "err:loopCmdWithoutStart"   -- an InputError since repository fix 3e0ed67
+    | .error (.codec .stackEmpty) => "err:loopCmd"
     | .error .macroUnmodelled =>
       -- the first-layer model stops at macro tracks; the constructor model (C09's, over which the whole-song
       -- theorems are stated) has them
